@@ -1,4 +1,4 @@
-// Counterexample found by mirsym/z3 for property C01, template cs_occurs_list_literal_field: |x| { conde { [x == Wrap([p0, x]), q == 1], [Pt(p0, [p1 | x]) == x, q == 2], [x == Wrap([p0, [x]]), q == 3], [x == Wrap([p0]), q == 4] } } with parameters [0, 0]: engine answer 0 is not a reference answer (or is returned too often) (expected answers ['4'], engine answers ['1', '2', '3', '4'])
+// Counterexample found by mirsym/z3 for property C01, template cs_occurs_list_literal_field: |x| { conde { [x == Wrap([p0, x]), q == 1], [Pt(p0, [p1 | x]) == x, q == 2], [x == Wrap([p0, [x]]), q == 3], [x == Wrap([p0]), q == 4] } } with parameters [0, 0]: engine answer 0 is not a reference answer (or is returned too often) (expected answers ['4'], engine answers ['2', '4'])
 // Replay: /verif/check C01 --replay /verif/replay/cases/C01-cs_occurs_list_literal_field_answers.rs
 #![allow(unused_imports, unused_variables, unused_mut)]
 use proto_vulcan::prelude::*;
